@@ -36,5 +36,5 @@ corpus, run, shrink, replay = make(
     [(lambda ctx, rng: solvers.ordered_case(ctx, rng, 4, 4, 3), 0.8),
      (lambda ctx, rng: solvers.ordered_case(ctx, rng, 3, 3, 4), 0.2)],
     lambda res, r: solvers.judge_optimal(res, r, ID),
-    quick=150, thorough=2500, corpus_cases=CORPUS, known_algos=["ext_spfs"],
+    quick=400, thorough=4000, corpus_cases=CORPUS, known_algos=["ext_spfs"],
 )
